@@ -35,6 +35,14 @@ import (
 //         build.Main with the passes [custom include pass, pass.Compile, Output(goasm), Output(stubs)].
 //
 // A digest is "<asm>.<stubs>.<alloc+isa>" (three truncated sha256) or "err:<message>" / "panic".
+//
+// History in the process (c17dirty.go): before every second in-process run, and before every generation in
+// the children other than child 0 (the clean reference process), a generated batch of unrelated work goes
+// through the public API of pass / reg / build / printer — throw-away allocators with SetPriority / Add /
+// AddInterference / Allocate, accessor results mutated by the caller, printers on other files, Collections,
+// the real package-level context.  `accept-order` lines compare the register assignment of the clique
+// program on a new allocator in the fresh child with the same in the dirty processes; `allochist` lines
+// compare generated histories over several allocators exactly with the process model.
 // ---------------------------------------------------------------------------------------------
 
 // c17ISA holds, per compiled function of the last compile call, the distinct ISA names of its
@@ -526,16 +534,24 @@ func c17CompileCtx(seed uint64, k, route int) (digest string, sh c17Shape) {
 	if status != 0 {
 		return c17ErrDigest(fmt.Errorf("status=%d %s", status, errout.String())), sh
 	}
+	c17LastFile = file
 	return c17Digest(asm.Bytes(), stub.Bytes(), file), sh
 }
 
 // c17One compiles program (stream, k) once.
-func c17One(db *formsDB, seed uint64, stream string, k, route int) string {
-	if stream == "f" {
-		d, _ := c17Compile(db, seed, k)
-		return d
+func c17One(db *formsDB, seed uint64, stream string, k, route int) (d string) {
+	// a panic anywhere (also in the generator, which calls avo's constructors and accessors: the process may
+	// have been damaged by the history) is the outcome "panic" of this generation
+	if _, panicked := safely(func() error {
+		if stream == "f" {
+			d, _ = c17Compile(db, seed, k)
+		} else {
+			d, _ = c17CompileCtx(seed, k, route)
+		}
+		return nil
+	}); panicked {
+		return "panic"
 	}
-	d, _ := c17CompileCtx(seed, k, route)
 	return d
 }
 
@@ -548,6 +564,7 @@ func init() {
 		nctx := f.fs.Int("nctx", -1, "number of build-level programs (default n)")
 		dump := f.fs.String("dump", "", "directory for the outputs of differing runs")
 		show := f.fs.Int("show", -1, "print the assembly and stubs of build-level program k and exit")
+		nhist := f.fs.Int("nhist", 300, "number of generated allocator histories")
 		if err := f.fs.Parse(args); err != nil {
 			return err
 		}
@@ -570,6 +587,7 @@ func init() {
 		}
 		var progs []prog
 		var isaLines [][]string
+		var histLines [][]string
 		if *f.replay != "" {
 			// replay: `accept-det <stream><k>@<seed> …` regenerates exactly that program (the digests recorded in
 			// the line are ignored, the runs are repeated); `isa n names…` is recomputed by the real pass
@@ -593,6 +611,8 @@ func init() {
 					progs = append(progs, pg)
 				case len(t) >= 2 && t[0] == "isa":
 					isaLines = append(isaLines, t[2:])
+				case len(t) >= 2 && t[0] == "allochist":
+					histLines = append(histLines, t)
 				}
 			}
 			// canonical order, no duplicates: parent and children must enumerate the same list (a JSON replay
@@ -615,6 +635,7 @@ func init() {
 			}
 			progs = uniq
 			sort.Slice(isaLines, func(i, j int) bool { return strings.Join(isaLines[i], " ") < strings.Join(isaLines[j], " ") })
+			sort.Slice(histLines, func(i, j int) bool { return strings.Join(histLines[i], " ") < strings.Join(histLines[j], " ") })
 			*nctx = 1 << 30
 		} else {
 			for k := 0; k < *f.n; k++ {
@@ -627,16 +648,31 @@ func init() {
 		if *child >= 0 {
 			// A child generates the programs in an order of its own (different histories in the process):
 			// even children forwards, odd children backwards; the route of the build-level stream alternates.
+			// Every child first reports the order in which a new allocator of each kind hands out its registers in a
+			// FRESH process.  Child 0 then only runs the pipeline (the clean reference); the other children make
+			// their process dirty through the public API before every generation, and report the order again at
+			// the end.
+			for _, k := range c17ProbeKinds {
+				fmt.Println("order", int(k), strings.Join(c17Probe(k), " "))
+			}
+			dst := map[string]int{}
+			rd := newRng(*f.seed*31 + 0xD1A7 + uint64(*child))
 			ds := make([]string, len(progs))
 			for j := range progs {
 				i := j
 				if *child%2 == 1 {
 					i = len(progs) - 1 - j
 				}
+				if *child > 0 {
+					c17Dirty(rd, dst)
+				}
 				ds[i] = c17One(db, progs[i].seed, progs[i].stream, progs[i].k, (*child/2+progs[i].k)%2)
 			}
 			for _, d := range ds {
 				fmt.Println(d)
+			}
+			for _, k := range c17ProbeKinds {
+				fmt.Println("order-end", int(k), strings.Join(c17Probe(k), " "))
 			}
 			return nil
 		}
@@ -647,6 +683,8 @@ func init() {
 		defer o.close()
 		// children first (fresh hash seeds)
 		childDigests := make([][]string, *procs)
+		childOrders := make([][][]string, *procs)
+		childOrdersEnd := make([][][]string, *procs)
 		self, _ := os.Executable()
 		for p := 0; p < *procs; p++ {
 			out, err := exec.Command(self, "c17", "-child", fmt.Sprint(p), "-seed", fmt.Sprint(*f.seed), "-n", fmt.Sprint(*f.n),
@@ -654,12 +692,36 @@ func init() {
 			if err != nil {
 				return fmt.Errorf("child %d: %v", p, err)
 			}
-			childDigests[p] = strings.Fields(string(out))
-			if len(childDigests[p]) != len(progs) {
-				return fmt.Errorf("child %d printed %d digests, want %d", p, len(childDigests[p]), len(progs))
+			for _, l := range strings.Split(strings.TrimSpace(string(out)), "\n") {
+				t := strings.Fields(l)
+				switch {
+				case len(t) >= 2 && t[0] == "order":
+					childOrders[p] = append(childOrders[p], t[1:])
+				case len(t) >= 2 && t[0] == "order-end":
+					childOrdersEnd[p] = append(childOrdersEnd[p], t[1:])
+				case len(t) == 1:
+					childDigests[p] = append(childDigests[p], t[0])
+				}
+			}
+			if len(childDigests[p]) != len(progs) || len(childOrders[p]) != len(c17ProbeKinds) || len(childOrdersEnd[p]) != len(c17ProbeKinds) {
+				return fmt.Errorf("child %d printed %d digests, want %d (and %d+%d order lines)", p, len(childDigests[p]), len(progs), len(childOrders[p]), len(childOrdersEnd[p]))
 			}
 		}
 		stats := map[string]int{}
+		rd := newRng(*f.seed*131 + 0xD1A7D1A7)
+		// `accept-order kind n fresh… m now…`: the order in which a new allocator of the kind hands out its registers
+		// (the register assignment of the clique program) in a fresh process and now, in this process with its history
+		emitOrders := func(tag string, now func(i int) []string) {
+			if *procs == 0 {
+				return
+			}
+			for i, k := range c17ProbeKinds {
+				fresh := childOrders[0][i][1:]
+				nw := now(i)
+				o.emit(fmt.Sprintf("accept-order %s:k%d %d %s %d %s", tag, int(k), len(fresh), strings.Join(fresh, " "), len(nw), strings.Join(nw, " ")), "ok")
+				stats["order_lines"]++
+			}
+		}
 		dumped := 0
 		for pi, pg := range progs {
 			var ds []string
@@ -667,16 +729,25 @@ func init() {
 			var sh c17Shape
 			for i := 0; i < *runs; i++ {
 				var d string
-				if pg.stream == "f" {
-					d, _ = c17Compile(db, pg.seed, pg.k)
-				} else {
-					d, sh = c17CompileCtx(pg.seed, pg.k, i%2)
-					if i%5 == 4 {
-						// another generation in between (history in the process)
-						c17CompileCtx(pg.seed, (pg.k+1+i)%(*nctx), (i/5)%2)
-						c17ISA = nil
+				if i%2 == 1 {
+					// unrelated earlier work in the process, through the public API
+					c17Dirty(rd, stats)
+				}
+				if _, panicked := safely(func() error {
+					if pg.stream == "f" {
+						d, _ = c17Compile(db, pg.seed, pg.k)
+					} else {
 						d, sh = c17CompileCtx(pg.seed, pg.k, i%2)
+						if i%5 == 4 {
+							// another generation in between (history in the process)
+							c17CompileCtx(pg.seed, (pg.k+1+i)%(*nctx), (i/5)%2)
+							c17ISA = nil
+							d, sh = c17CompileCtx(pg.seed, pg.k, i%2)
+						}
 					}
+					return nil
+				}); panicked {
+					d = "panic"
 				}
 				if i == 0 {
 					first = [2][]byte{c17LastAsm, c17LastStub}
@@ -729,6 +800,9 @@ func init() {
 				}
 			}
 			o.emit(fmt.Sprintf("accept-det %s%d@%d %d %s", pg.stream, pg.k, pg.seed, len(ds), strings.Join(ds, " ")), "ok")
+			if pi%64 == 63 {
+				emitOrders(fmt.Sprintf("parent-after-%d", pi+1), func(i int) []string { return c17Probe(c17ProbeKinds[i]) })
+			}
 			for _, p := range c17ISA {
 				req := append([]string{"isa", itoa(len(p[0]))}, p[0]...)
 				resp := append([]string{itoa(len(p[1]))}, p[1]...)
@@ -736,6 +810,39 @@ func init() {
 				stats["isa_lists"]++
 			}
 		}
+		if pi := len(progs); pi > 0 {
+			emitOrders("parent-end", func(i int) []string { return c17Probe(c17ProbeKinds[i]) })
+			for p := 0; p < *procs; p++ {
+				p := p
+				emitOrders(fmt.Sprintf("child%d-start", p), func(i int) []string { return childOrders[p][i][1:] })
+				emitOrders(fmt.Sprintf("child%d-end", p), func(i int) []string { return childOrdersEnd[p][i][1:] })
+			}
+		}
+		if *f.replay == "" {
+			// generated histories over several allocators, played in this (by now dirty) process
+			for h := 0; h < *nhist; h++ {
+				if h%8 == 0 {
+					c17Dirty(rd, stats)
+				}
+				var req, resp string
+				if _, panicked := safely(func() error { req, resp = c17History(rd, stats); return nil }); panicked {
+					// the harness's own calls into avo (register families, constructors) panicked: judged by the acceptor
+					o.emit("accept-order history-generation 1 panic 1 panic", "ok")
+					continue
+				}
+				o.emit(req, resp)
+				stats["hist_lines"]++
+			}
+		}
+		for _, t := range histLines {
+			resp, err := c17ReplayHistory(t)
+			if err != nil {
+				return err
+			}
+			o.emit(strings.Join(t, " "), resp)
+			stats["hist_lines"]++
+		}
+		stats["dirty_accessor_methods"] = len(c17DirtyMethods)
 		for _, names := range isaLines {
 			// the real pass on a function whose instructions carry these ISA names
 			fn := ir.NewFunction("isa")
